@@ -610,6 +610,11 @@ func (s *Server) do(c *Call) (runtime.Object, error) {
 		if err := validateOwners(c.Res, acc(n)); err != nil {
 			return nil, err
 		}
+		if s.unchanged(cur, n) {
+			// like the real server: a write that changes nothing is not persisted (no new resourceVersion, no event)
+			c.Applied = true
+			return cur.DeepCopyObject(), nil
+		}
 		s.put(c.Res, key, cur, n)
 		c.Applied = true
 		return n.DeepCopyObject(), nil
@@ -630,6 +635,10 @@ func (s *Server) do(c *Call) (runtime.Object, error) {
 		}
 		if err := validateOwners(c.Res, acc(n)); err != nil {
 			return nil, err
+		}
+		if s.unchanged(cur, n) {
+			c.Applied = true
+			return cur.DeepCopyObject(), nil
 		}
 		s.put(c.Res, key, cur, n)
 		c.Applied = true
@@ -707,6 +716,18 @@ func (s *Server) mergeUpdate(c *Call, cur, n runtime.Object) (runtime.Object, er
 		}
 	}
 	return n, nil
+}
+
+// unchanged reports whether n equals cur apart from resourceVersion / managed fields.
+func (s *Server) unchanged(cur, n runtime.Object) bool {
+	a, b := cur.DeepCopyObject(), n.DeepCopyObject()
+	for _, o := range []runtime.Object{a, b} {
+		m := acc(o)
+		m.SetResourceVersion("")
+		m.SetManagedFields(nil)
+		o.GetObjectKind().SetGroupVersionKind(schema.GroupVersionKind{})
+	}
+	return apiequality.Semantic.DeepEqual(a, b)
 }
 
 func rawEqual(a, b runtime.RawExtension) bool {
